@@ -1,0 +1,268 @@
+//! Verification hooks (only compiled with the `verif_hooks` feature).
+//!
+//! Thin public wrappers around crate-private functions so that an external
+//! harness can drive them directly. Nothing here changes the behaviour of the
+//! existing code paths.
+
+use std::cell::Cell;
+use std::sync::atomic::{AtomicU64, Ordering};
+
+use glam::DVec3;
+
+use crate::bounding_sphere::{BoundingSphereSolver, Epos6, Welzl};
+use crate::geometry::Sphere;
+use crate::rtree_nn::{build_rtree, nn_iter, wrapping_nn_iter};
+use crate::simple_cycle::SimpleCycle;
+use crate::space::Space;
+use crate::voronoi::boundary::SimulationBoundary;
+use crate::voronoi::convex_cell::{ConvexCell, WithoutFaces};
+use crate::voronoi::half_space::HalfSpace;
+use crate::voronoi::{Dimensionality, Generator};
+
+/// Global number of invocations of the exact in-sphere predicate.
+pub static EXACT_CALLS: AtomicU64 = AtomicU64::new(0);
+
+thread_local! {
+    /// Number of invocations of the exact in-sphere predicate on this thread.
+    pub static EXACT_CALLS_THREAD: Cell<u64> = const { Cell::new(0) };
+}
+
+#[inline]
+pub(crate) fn count_exact_call() {
+    EXACT_CALLS.fetch_add(1, Ordering::Relaxed);
+    EXACT_CALLS_THREAD.with(|c| c.set(c.get() + 1));
+}
+
+pub fn exact_calls() -> u64 {
+    EXACT_CALLS.load(Ordering::Relaxed)
+}
+
+pub fn exact_calls_thread() -> u64 {
+    EXACT_CALLS_THREAD.with(|c| c.get())
+}
+
+/// The exact in-sphere predicate on integer grid coordinates.
+pub fn in_sphere_exact(a: [i64; 3], b: [i64; 3], c: [i64; 3], d: [i64; 3], v: [i64; 3]) -> f64 {
+    crate::geometry::in_sphere_test_exact(&a, &b, &c, &d, &v)
+}
+
+/// The floating point in-sphere predicate.
+pub fn in_sphere_float(a: DVec3, b: DVec3, c: DVec3, d: DVec3, v: DVec3) -> f64 {
+    crate::geometry::in_sphere_test(a, b, c, d, v)
+}
+
+/// Handle on a simulation boundary (integer grid map + wall planes).
+#[derive(Clone)]
+pub struct Boundary {
+    inner: SimulationBoundary,
+}
+
+impl Boundary {
+    pub fn new(anchor: DVec3, width: DVec3, periodic: bool, dimensionality: Dimensionality) -> Self {
+        Self {
+            inner: SimulationBoundary::cuboid(anchor, width, periodic, dimensionality),
+        }
+    }
+
+    /// Map a position to the integer grid.
+    pub fn iloc(&self, loc: DVec3) -> [i64; 3] {
+        self.inner.iloc(loc)
+    }
+
+    /// The six wall half spaces.
+    pub fn walls(&self) -> &[HalfSpace] {
+        &self.inner.clipping_planes
+    }
+
+    /// The mirror image of `loc` through wall `wall_idx`, as used for the exact predicate.
+    pub fn wall_mirror(&self, wall_idx: usize, loc: DVec3) -> DVec3 {
+        let generators = [Generator::new(0, loc, Dimensionality::ThreeD)];
+        self.inner.clipping_planes[wall_idx].right_loc(0, &generators)
+    }
+}
+
+/// The generator position as the builder sees it (unused coordinates dropped).
+pub fn generator_loc(loc: DVec3, dimensionality: Dimensionality) -> DVec3 {
+    Generator::new(0, loc, dimensionality).loc()
+}
+
+/// The sequence of neighbour candidates (index, shift) visited for generator `query`,
+/// obtained exactly like the builder obtains it.
+pub fn nn_sequence(
+    generators: &[DVec3],
+    query: usize,
+    width: DVec3,
+    dimensionality: Dimensionality,
+    periodic: bool,
+) -> Vec<(usize, Option<DVec3>)> {
+    let generators: Vec<Generator> = generators
+        .iter()
+        .enumerate()
+        .map(|(id, &loc)| Generator::new(id, loc, dimensionality))
+        .collect();
+    let rtree = build_rtree(&generators);
+    let loc = generators[query].loc();
+    if periodic {
+        wrapping_nn_iter(&rtree, loc, width, dimensionality).collect()
+    } else {
+        nn_iter(&rtree, loc).collect()
+    }
+}
+
+/// A convex cell under construction, together with everything `clip_by_plane` needs.
+#[derive(Clone)]
+pub struct ClipCell {
+    pub cell: ConvexCell<WithoutFaces>,
+    generators: Vec<Generator>,
+    boundary: SimulationBoundary,
+}
+
+impl ClipCell {
+    /// Initialize the cell of generator `idx` as the (possibly tripled) simulation box.
+    pub fn init(
+        generators: &[DVec3],
+        idx: usize,
+        anchor: DVec3,
+        width: DVec3,
+        dimensionality: Dimensionality,
+        periodic: bool,
+    ) -> Self {
+        let generators: Vec<Generator> = generators
+            .iter()
+            .enumerate()
+            .map(|(id, &loc)| Generator::new(id, loc, dimensionality))
+            .collect();
+        let boundary = SimulationBoundary::cuboid(anchor, width, periodic, dimensionality);
+        let cell = ConvexCell::init(generators[idx].loc(), idx, &boundary);
+        Self {
+            cell,
+            generators,
+            boundary,
+        }
+    }
+
+    /// Clip by the bisector plane towards generator `right_idx` (+ `shift`), like the builder.
+    /// Returns false when the builder would have stopped (safety radius reached).
+    pub fn clip_by_neighbour(&mut self, right_idx: usize, shift: Option<DVec3>) -> bool {
+        let mut ngb_loc = self.generators[right_idx].loc();
+        if let Some(shift) = shift {
+            ngb_loc += shift;
+        }
+        let dx = self.cell.loc - ngb_loc;
+        let dist = dx.length();
+        if self.cell.safety_radius < dist {
+            return false;
+        }
+        let n = dx / dist;
+        let p = 0.5 * (self.cell.loc + ngb_loc);
+        self.cell.clip_by_plane(
+            HalfSpace::new(n, p, Some(right_idx), shift),
+            &self.generators,
+            &self.boundary,
+        );
+        true
+    }
+
+    /// Clip by the bisector towards generator `right_idx` (+ `shift`), regardless of the safety
+    /// radius.
+    pub fn clip_by_neighbour_unconditional(&mut self, right_idx: usize, shift: Option<DVec3>) {
+        let mut ngb_loc = self.generators[right_idx].loc();
+        if let Some(shift) = shift {
+            ngb_loc += shift;
+        }
+        let dx = self.cell.loc - ngb_loc;
+        let dist = dx.length();
+        let n = dx / dist;
+        let p = 0.5 * (self.cell.loc + ngb_loc);
+        self.cell.clip_by_plane(
+            HalfSpace::new(n, p, Some(right_idx), shift),
+            &self.generators,
+            &self.boundary,
+        );
+    }
+
+    /// Clip by an arbitrary half space.
+    pub fn clip(&mut self, half_space: HalfSpace) {
+        self.cell.clip_by_plane(half_space, &self.generators, &self.boundary);
+    }
+
+    pub fn safety_radius(&self) -> f64 {
+        self.cell.safety_radius
+    }
+
+    /// The integer grid position of the "right" point of clipping plane `plane_idx`.
+    pub fn right_iloc(&self, plane_idx: usize) -> [i64; 3] {
+        self.boundary
+            .iloc(self.cell.clipping_planes[plane_idx].right_loc(self.cell.idx, &self.generators))
+    }
+
+    /// The integer grid position of the right point of an arbitrary half space.
+    pub fn right_iloc_of(&self, half_space: &HalfSpace) -> [i64; 3] {
+        self.boundary.iloc(half_space.right_loc(self.cell.idx, &self.generators))
+    }
+
+    /// The integer grid position of this cell's generator.
+    pub fn gen_iloc(&self) -> [i64; 3] {
+        self.boundary.iloc(self.cell.loc)
+    }
+}
+
+/// Handle on the boundary cycle used to reconstruct the rim of removed vertices.
+#[derive(Clone, Debug)]
+pub struct Cycle {
+    inner: SimpleCycle,
+}
+
+impl Cycle {
+    pub fn new(capacity: usize) -> Self {
+        Self {
+            inner: SimpleCycle::new(capacity),
+        }
+    }
+
+    pub fn grow(&mut self) {
+        self.inner.grow()
+    }
+
+    pub fn init(&mut self, a: usize, b: usize, c: usize) {
+        self.inner.init(a, b, c)
+    }
+
+    pub fn try_extend(&mut self, a: usize, b: usize, c: usize) -> Result<(), ()> {
+        self.inner.try_extend(a, b, c)
+    }
+
+    pub fn len(&self) -> usize {
+        self.inner.len
+    }
+
+    /// The cycle as a list of `len` entries, starting at its start element.
+    pub fn to_vec(&self) -> Vec<usize> {
+        self.inner.iter().take(self.inner.len).collect()
+    }
+}
+
+/// `Space::knn` on the given particle set.
+pub fn space_knn(
+    anchor: DVec3,
+    width: DVec3,
+    max_cell_width: f64,
+    positions: &[DVec3],
+    k: usize,
+) -> Vec<Vec<usize>> {
+    let mut space = Space::new(anchor, width, max_cell_width);
+    space.add_parts(positions);
+    space.knn(k)
+}
+
+pub fn welzl(points: &[DVec3]) -> Sphere {
+    Welzl::bounding_sphere(points)
+}
+
+pub fn epos6(points: &[DVec3]) -> Sphere {
+    Epos6::bounding_sphere(points)
+}
+
+pub fn epos6_spheres(spheres: &[Sphere]) -> Sphere {
+    Epos6::bounding_sphere_of_spheres(spheres)
+}
